@@ -145,4 +145,16 @@ def declare_serve(w):
                    modifies=lambda a, h: CLK + [("WorkerGateway", a.self, f) for f in ("_execpool", "_executetask_complete", "$receiver_started")] + [("WorkerPool", None, "_shuttingdown"), ("WorkerPool", None, "$hasprimary"),
                                                                                                                                                      ("Event", None, "$set")],
                    cases=[Case("returns", post=serve_post)], props=["C11", "C14"], allocates=True))     # no exception escapes serve(): the worker process then exits
+
+    # publication order: the receiver thread handles CHANNEL_EXEC as soon as it exists (a request may already wait in the pipe), and _local_schedulexec reads the
+    # execution pool and - for main_thread_only - the completion event, which must be there and set ("no previous task") by then
+    def at_initreceive(a, h0, call, hnow, loc=None):
+        g = a.self
+        be = h0("ExecModel", h0("BaseGateway", g, "execmodel"), "backend")
+        pool, ev = hnow("WorkerGateway", g, "_execpool"), hnow("WorkerGateway", g, "_executetask_complete")
+        return [("execution-pool-exists-before-the-receiver-thread-is-started", z3.Implies(call.self == g, z3.And(pool != 0, hnow("WorkerPool", pool, "$hasprimary") == z3.Or(be == THREAD, be == MTO)))),
+                ("completion-event-created-and-set-before-the-receiver-thread-is-started",
+                 z3.Implies(call.self == g, z3.If(be == MTO, z3.And(ev != 0, hnow("Event", ev, "$set")), ev == 0)))]
+
+    w.contracts[f"{GB}:WorkerGateway.serve"].at_call = {f"{GB}:BaseGateway._initreceive": at_initreceive}
     return w
